@@ -368,6 +368,7 @@ class World:
         self.session.main_region = self.regions[0]
         self.model = Model(self.cache)
         self.futs = []            # pending requests: [region, local, type, future]
+        self.requested = {}       # (region, local) -> request types registered since the region last came up
         self.n = 0                # message counter: makes every payload differ from the previous one
         self.steps = []           # concrete history since this world was created
         env.catcher.records.clear()
@@ -537,6 +538,7 @@ class World:
         elif kind == "kill":
             raised = self._deliver(self._msg_kill(step[2]), step[1])
         elif kind == "down":
+            self.requested = {k: v for k, v in self.requested.items() if k[0] != step[1]}
             try:
                 self.regions[step[1]].mark_dead()           # CloseCircuit / DisableSimulator
             except Exception as e:  # noqa
@@ -567,6 +569,7 @@ class World:
                 futs = mgr.request_objects(local) if typ == UPDATE else mgr.request_object_properties(local)
                 for f in futs:
                     self.futs.append([r, local, typ, f])
+                self.requested.setdefault((r, local), set()).add(typ)
             except Exception as e:  # noqa
                 raised = e
         elif kind == "tick":
@@ -878,15 +881,14 @@ def bounded_transitions(reg, tier, seed):
     level = "full" if tier == "quick" else "partial"
     perms = _perms(level)
     alphabet = structural_alphabet()
-    budget = 16000 if tier == "quick" else 220000
+    budget = 26000 if tier == "quick" else 260000
     max_len = 60
-    info = {}                 # concrete state key -> (class key, [(letter, canonical letter)])
+    info = {}                 # concrete state key -> (class key, [(letter, canonical letter, hazards, successor model | None)])
     pending = {}              # class key -> canonical letters not yet executed from a state of the class
     hist = {}                 # class key -> shortest concrete history seen that reaches it
     unreachable = set()
     executed, distinct, samples = 0, set(), []
-    pairs_done = moved = resets = 0
-    succ = {}                 # concrete state key -> [(letter, successor model)] for letters that change the scene graph
+    pairs_done = moved = resets = skipped = 0
 
     def state_info(model):
         k = model.key()
@@ -898,20 +900,26 @@ def bounded_transitions(reg, tier, seed):
             letters = []
             for a in alphabet:
                 if model.enabled(a):
-                    letters.append((a, min(_perm_letter(a, p) for p in mins)))
+                    m2 = model.copy()
+                    eff = m2.apply(a)
+                    letters.append((a, min(_perm_letter(a, p) for p in mins), tuple(sorted(eff.hazards)), m2 if m2.key() != k else None))
             inf = info[k] = (ck, letters)
             if ck not in pending:
-                pending[ck] = {ca for _, ca in letters}
+                pending[ck] = {ca for _, ca, _, _ in letters}
         return inf
 
-    def decoration(model):
+    def decoration(world):
+        model = world.model
         live = [(v[0], v[1], f) for f, v in sorted(model.objs.items()) if v[0] is not None]
         roll = rng.random()
         r, local = rng.choice((0, 1)), rng.choice(LOCALS)
         if live and rng.random() < 0.7:
             r, local, _ = rng.choice(live)
         if roll < 0.45:
-            return ("req", r, local, rng.choice((UPDATE, PROPERTIES)))
+            typ = rng.choice((UPDATE, PROPERTIES))
+            if rec.saturated("both-request-types") and world.requested.get((r, local), {typ}) != {typ}:
+                typ = next(iter(world.requested[(r, local)]))
+            return ("req", r, local, typ)
         if roll < 0.6:
             return ("terse", r, local)
         if roll < 0.75:
@@ -921,100 +929,90 @@ def bounded_transitions(reg, tier, seed):
             return ("props", rng.randrange(N_FULL), rng.random() < 0.3)
         return ("tick",)
 
+    def concrete(a):
+        return ("upd", rng.choice(("full", "comp")), a[2], a[3]) if a[0] == "upd" else a
+
+    def run(world, steps):
+        """-> True if all steps passed; a failure is recorded and the session is spent"""
+        nonlocal executed
+        for st in steps:
+            executed += 1
+            distinct.add((world.model.key(), st))
+            try:
+                world.step(st)
+            except Failure as f:
+                rec.record(DEFAULT_CONFIG, world.steps, f)
+                return False
+        return True
+
     world = None
     complete = False
     try:
         while executed < budget:
-            cands = []
+            cands, moves = [], []
             if world is not None and len(world.steps) < max_len:
                 ck, letters = state_info(world.model)
                 todo = pending[ck]
-                cands = [(a, ca) for (a, ca) in letters if ca in todo]
-            if not cands and world is not None and len(world.steps) < max_len:
-                # nothing left to try here: one message that leads to a scene graph with unexecuted messages, if there is one
-                k = world.model.key()
-                nxt = succ.get(k)
-                if nxt is None:
-                    nxt = []
-                    for a, _ in letters:
-                        m2 = world.model.copy()
-                        m2.apply(a)
-                        if m2.key() != k:
-                            nxt.append((a, m2))
-                    succ[k] = nxt
-                moves = [a for a, m2 in nxt if pending[state_info(m2)[0]]]
-                if moves:
-                    a = moves[rng.randrange(len(moves))]
-                    step = ("upd", rng.choice(("full", "comp")), a[2], a[3]) if a[0] == "upd" else a
-                    try:
-                        executed += 1
-                        moved += 1
-                        distinct.add((k, step))
-                        world.step(step)
-                    except Failure as f:
-                        rec.record(DEFAULT_CONFIG, world.steps, f)
-                        world.close()
-                        world = None
-                    continue
-            if not cands:
-                # fresh session, go to the nearest class that still has unexecuted messages
-                resets += 1
-                if world is not None:
+                for (a, ca, hz, m2) in letters:
+                    if ca in todo:
+                        if hz and any(rec.saturated(h) for h in hz):
+                            todo.discard(ca)        # the defect behind this hazard is reported; do not spend a session per pair on it
+                            skipped += 1
+                        else:
+                            cands.append((a, ca))
+                if not cands:
+                    # nothing left to try here: one message that leads to a scene graph with unexecuted messages, if there is one
+                    moves = [a for (a, ca, hz, m2) in letters if m2 is not None and not hz and pending[state_info(m2)[0]]]
+            if cands:
+                a, ca = cands[rng.randrange(len(cands))]
+                todo.discard(ca)
+                steps = [concrete(a)]
+                if rng.random() < 0.15:
+                    steps.insert(0, decoration(world))
+                if not run(world, steps):
                     world.close()
                     world = None
-                targets = [(len(h), ck) for ck, h in hist.items() if pending.get(ck) and ck not in unreachable]
-                world = World(env, DEFAULT_CONFIG)
-                ck0, _ = state_info(world.model)
-                hist.setdefault(ck0, [])
-                if pending[ck0]:
                     continue
-                if not targets:
-                    complete = True
-                    break
-                _, target = min(targets)
-                ok = True
-                for st in hist[target]:
-                    if not world.model.enabled(st):
-                        ok = False
-                        break
-                    try:
-                        world.step(st)
-                        executed += 1
-                    except Failure:
-                        ok = False              # already recorded when first seen
-                        break
-                if not ok:
-                    unreachable.add(target)
+                pairs_done += 1
+                ck2, _ = state_info(world.model)
+                if ck2 not in hist or len(world.steps) < len(hist[ck2]):
+                    hist[ck2] = list(world.steps)
+                if len(samples) < 3 and len(world.steps) == 6:
+                    samples.append([describe(s) for s in world.steps])
+                continue
+            if moves:
+                moved += 1
+                if not run(world, [concrete(moves[rng.randrange(len(moves))])]):
                     world.close()
                     world = None
                 continue
-            a, ca = cands[rng.randrange(len(cands))]
-            pending[ck].discard(ca)
-            step = ("upd", rng.choice(("full", "comp")), a[2], a[3]) if a[0] == "upd" else a
-            todo_steps = [step]
-            if rng.random() < 0.15:
-                todo_steps.insert(0, decoration(world.model))
-            failed = False
-            for st in todo_steps:
-                pre = world.model.key()
-                try:
-                    executed += 1
-                    distinct.add((pre, st))
-                    world.step(st)
-                except Failure as f:
-                    rec.record(DEFAULT_CONFIG, world.steps, f)
-                    failed = True
+            # fresh session; go to the nearest class that still has unexecuted messages
+            if world is not None:
+                world.close()
+            world = World(env, DEFAULT_CONFIG)
+            resets += 1
+            ck0, _ = state_info(world.model)
+            hist.setdefault(ck0, [])
+            if pending[ck0]:
+                continue
+            targets = [(len(h), ck) for ck, h in hist.items() if pending.get(ck) and ck not in unreachable]
+            if not targets:
+                complete = True
+                break
+            _, target = min(targets)
+            for st in hist[target]:
+                if not world.model.enabled(st):
+                    unreachable.add(target)
                     break
-            if failed:
+                executed += 1
+                try:
+                    world.step(st)
+                except Failure:                     # recorded when it was first seen
+                    unreachable.add(target)
+                    break
+            if target in unreachable:
                 world.close()
                 world = None
-                continue
-            pairs_done += 1
-            ck2, _ = state_info(world.model)
-            if ck2 not in hist or len(world.steps) < len(hist[ck2]):
-                hist[ck2] = list(world.steps)
-            if len(samples) < 3 and len(world.steps) == 6:
-                samples.append([describe(s) for s in world.steps])
     finally:
         if world is not None:
             world.close()
@@ -1022,14 +1020,15 @@ def bounded_transitions(reg, tier, seed):
     remaining = sum(len(v) for ck, v in pending.items() if ck not in unreachable)
     return {"name": "scene-graph-transitions", "evaluations": executed, "distinct_nontrivial": len(distinct),
             "rule": "every (abstract scene graph, enabled message) pair over the universe below, up to renaming (%s), is executed once on the "
-                    "real proxy session in sessions of <= %d messages (nearest class with unexecuted messages first; 15%% of the steps are "
-                    "preceded by a request / terse / cached / property message); after every message the whole tracked world is compared with the "
-                    "scene graph. distinct = distinct (scene graph before, message)" %
+                    "real proxy session in sessions of <= %d messages (15%% of the steps are preceded by a request / terse / cached / property "
+                    "message); after every message the whole tracked world is compared with the scene graph. Pairs touching a hazard whose "
+                    "defect has already failed 25 times are skipped (pairs_skipped). distinct = distinct (scene graph before, message)" %
                     ({"full": "regions swapped, local ids permuted, the two prims swapped", "partial": "regions swapped, the two prims swapped"}[level], max_len),
             "bounded": True,
             "bounds": {"local_ids": list(LOCALS), "full_ids": "2 prims + 1 avatar", "regions": "2 known + 1 unknown handle, teardown / re-handshake",
                        "messages": len(alphabet), "classes_seen": len(pending), "pairs_executed": pairs_done, "pairs_left": remaining,
-                       "complete": complete, "step_budget": budget, "sessions": resets, "connecting_steps": moved},
+                       "pairs_skipped": skipped, "complete": complete, "step_budget": budget, "sessions": resets, "connecting_steps": moved,
+                       "failures_by_key": dict(sorted(rec.counts.items()))},
             "samples": samples, "failures": rec.failures}
 
 
